@@ -33,6 +33,8 @@ import RedisVerif.Model.StreamActor
     ARUN                                                → the actor handles messages until its mailbox is empty (or it
                                                           exits): calls=<c> segs=[id:count,..]     (ARUNQ: → ok)
     XFAILALL <0|1>                                      → every store call fails (without effect) while set
+    SNEW / SPUT <name> <tag> / SGET <name> / SEXISTS <name> / SHEAD <name> / SDEL <name> / SREN <a> <b> /
+    SLIST <all|seg|chk|none>                            → the object store operations themselves (fault-free)
     AMISSING                                            → stored=<n> missing=<n> <keys of the updates handed to the sink
                                                           that are in no confirmed segment, sorted>
     AREC                                                → recovery of the actor's store image
@@ -120,6 +122,8 @@ def parseFaults : List String → Option (List (Nat × Fault))
     let ft ← parseFault f
     let r ← parseFaults rest
     pure ((n, ft) :: r)
+
+def allOkO : Oracle := fun _ => .ok
 
 def showSegs (st : Store) : String :=
   match NMap.get st manifestName with
@@ -214,6 +218,76 @@ def stepX (s : St) (line : String) : Option (St × String) :=
     some ({ s with act := a' }, s!"calls={a'.w.calls} segs={showSegs a'.w.store}")
   | ["ARUNQ"] =>
     some ({ s with act := actorDrain F s.acfg s.acap (s.act.mailbox.length + 1) s.act }, "ok")
+  -- the object store itself (InMemory / LocalFs / harness FaultStore vs `Stream.World`), names as codes,
+  -- contents as tags
+  | ["SNEW"] => some ({ s with act := StreamActor.A.init [] s.rid 0 }, "ok")
+  | ["SPUT", n, t] =>
+    match n.toNat?, t.toNat? with
+    | some n, some t =>
+      let r := s.act.w.put allOkO n (.checkpoint [] t)
+      some ({ s with act := { s.act with w := r.1 } }, "ok")
+    | _, _ => some (s, "bad-op")
+  | ["SGET", n] =>
+    match n.toNat? with
+    | some n =>
+      let r := s.act.w.get allOkO n
+      let o := match r.2 with
+        | .ok (.checkpoint _ t) => s!"ok {t}"
+        | .ok _ => "ok ?"
+        | .err true => "err notfound"
+        | .err false => "err other"
+      some ({ s with act := { s.act with w := r.1 } }, o)
+    | none => some (s, "bad-op")
+  | ["SEXISTS", n] =>
+    match n.toNat? with
+    | some n =>
+      let r := s.act.w.probe allOkO n
+      let o := match r.2 with
+        | .ok b => b01 b
+        | .err _ => "err"
+      some ({ s with act := { s.act with w := r.1 } }, o)
+    | none => some (s, "bad-op")
+  | ["SHEAD", n] =>
+    match n.toNat? with
+    | some n =>
+      let r := s.act.w.head allOkO n
+      let o := match r.2 with
+        | .ok _ => "ok"
+        | .err true => "err notfound"
+        | .err false => "err other"
+      some ({ s with act := { s.act with w := r.1 } }, o)
+    | none => some (s, "bad-op")
+  | ["SDEL", n] =>
+    match n.toNat? with
+    | some n =>
+      let r := s.act.w.delete allOkO n
+      let o := match r.2 with
+        | .ok _ => "ok"
+        | .err _ => "err"
+      some ({ s with act := { s.act with w := r.1 } }, o)
+    | none => some (s, "bad-op")
+  | ["SREN", a, b] =>
+    match a.toNat?, b.toNat? with
+    | some a, some b =>
+      let r := s.act.w.rename allOkO a b
+      let o := match r.2 with
+        | .ok _ => "ok"
+        | .err true => "err notfound"
+        | .err false => "err other"
+      some ({ s with act := { s.act with w := r.1 } }, o)
+    | _, _ => some (s, "bad-op")
+  | ["SLIST", cls] =>
+    let r := s.act.w.list allOkO
+    let keep (n : Nat) : Bool :=
+      match cls with
+      | "seg" => n ≥ 2 && n % 2 == 0
+      | "chk" => n ≥ 3 && n % 2 == 1
+      | "none" => false
+      | _ => true
+    let o := match r.2 with
+      | .ok ks => "[" ++ ",".intercalate ((ks.filter keep).map toString) ++ "]"
+      | .err _ => "err"
+    some ({ s with act := { s.act with w := r.1 } }, o)
   | ["XFAILALL", b] => some ({ s with afailAll := b != "0" }, "ok")
   | ["AMISSING"] =>
     -- everything handed to the sink that is in no confirmed segment, by key
